@@ -28,9 +28,9 @@ pub const VALUE_PAIRS: &[(i64, i64)] = &[
     (-7, -3),
     (0, 5),
     (5, 5),
+    (0x1234_5678_9ABC_DEF0, -0x0FED_CBA9_8765_4321),
     (i64::MAX, 2),
     (i64::MIN + 1, -1),
-    (0x1234_5678_9ABC_DEF0, -0x0FED_CBA9_8765_4321),
     (1 << 40, 1 << 30),
     (-1, 1),
     (3, 7),
@@ -193,7 +193,7 @@ pub fn run(ctx: &Ctx, acc: &mut Acc, isa: usize) {
         *idx += 1;
         *idx % ctx.nshards as u64 == ctx.shard as u64
     };
-    let pairs: Vec<(i64, i64)> = if quick { VALUE_PAIRS[..6].to_vec() } else { VALUE_PAIRS.to_vec() };
+    let pairs: Vec<(i64, i64)> = if quick { VALUE_PAIRS[..7].to_vec() } else { VALUE_PAIRS.to_vec() };
     'outer: for p in sizes(isa, quick) {
         // operators: all operand placements (including the same variable twice)
         for op in &ops {
